@@ -9,7 +9,7 @@ from common import Driver, DriverFailure, digest
 
 LEVEL = "proof"
 MANIFEST = dict(
-    text='Machine-checked Lean 4 proof over a hand model of GeckoAsyncLocator.discover / _async_on_discovered, the hello consume loop  Session 4: the blocking locator runs for real (its engine and retry threads, its waiting loop, a scripted OS socket, scaled waits) and the time at which start_discovery(True) returns is checked for five reply patterns. State inventory of both discovery callbacks (discovery_state_inventory).'
+    text='Machine-checked Lean 4 proof over a hand model of GeckoAsyncLocator.discover / _async_on_discovered, the hello consume loop '
          'and GeckoHelloProtocolHandler.handle (waits from the regenerated config tables). For EVERY input sequence (arbitrary datagram '
          'bytes, arbitrary relative timing and order of the main loop, the consumer and the network, an event handler that may suspend '
          'arbitrarily long), by invariant induction: no identifier is listed twice; the list is exactly the first handled reply per '
@@ -27,7 +27,7 @@ MANIFEST = dict(
          'identifier filters, callback order shuffled, timer jitter): the observed order of arrivals, consumer pops, handler returns and main-loop polls is fed to the model driver and the '
          'spas in order, return time, closed endpoint, consumer fate, found flag and queue length are compared; the threaded twin\'s '
          '_on_discovered is compared against its own model function; direct monitors on the real locator.'
-         " Since session 3: identifier + foreign static address filters; a direct oracle on the blocking locator (each spa once, first reply's fields).",
+         " Since session 3: identifier + foreign static address filters; a direct oracle on the blocking locator (each spa once, first reply's fields). Session 4: the blocking locator runs for real (its engine and retry threads, its waiting loop, a scripted OS socket, scaled waits) and the time at which start_discovery(True) returns is checked for five reply patterns. State inventory of both discovery callbacks (discovery_state_inventory).",
     note='Partial: the timing clauses are theorems about the lockstep tick model; real timer skew is outside (jittered runs are still '
          'compared exactly because the model accepts any schedule, and the monitors bound the return time by the skew). Hypothesis kept '
          'visible: spa identifiers contain no "|" and do not start with IOS/AND (true of SPA+MAC identifiers; id_hypothesis_needed shows '
